@@ -175,7 +175,7 @@ impl Content {
         for h in &self.out {
             v.push(model::Htlc {
                 side: model::Htlc::LOCAL,
-                amount: h.value_sat * 1000,
+                amount: h.value_sat.wrapping_mul(1000),
                 payment_hash: model::Sha256(pay_hash(h.hash).0),
                 ctlv_expiry: h.cltv,
             });
@@ -183,7 +183,7 @@ impl Content {
         for h in &self.inc {
             v.push(model::Htlc {
                 side: model::Htlc::REMOTE,
-                amount: h.value_sat * 1000,
+                amount: h.value_sat.wrapping_mul(1000),
                 payment_hash: model::Sha256(pay_hash(h.hash).0),
                 ctlv_expiry: h.cltv,
             });
@@ -201,7 +201,7 @@ fn oic(offered_by_broadcaster: &[H], received_by_broadcaster: &[H]) -> Vec<HTLCO
     for h in offered_by_broadcaster {
         v.push(HTLCOutputInCommitment {
             offered: true,
-            amount_msat: h.value_sat * 1000,
+            amount_msat: h.value_sat.wrapping_mul(1000),
             cltv_expiry: h.cltv,
             payment_hash: pay_hash(h.hash),
             transaction_output_index: None,
@@ -210,7 +210,7 @@ fn oic(offered_by_broadcaster: &[H], received_by_broadcaster: &[H]) -> Vec<HTLCO
     for h in received_by_broadcaster {
         v.push(HTLCOutputInCommitment {
             offered: false,
-            amount_msat: h.value_sat * 1000,
+            amount_msat: h.value_sat.wrapping_mul(1000),
             cltv_expiry: h.cltv,
             payment_hash: pay_hash(h.hash),
             transaction_output_index: None,
@@ -408,6 +408,8 @@ pub struct WorldCfg {
     pub oracle_pubkeys: Vec<PublicKey>,
     pub positive_approver: bool,
     pub allowlist: Vec<String>,
+    /// wrap the simple validator in the on-chain validator
+    pub onchain: bool,
 }
 
 impl Default for WorldCfg {
@@ -420,6 +422,7 @@ impl Default for WorldCfg {
             oracle_pubkeys: vec![],
             positive_approver: false,
             allowlist: vec![],
+            onchain: false,
         }
     }
 }
@@ -526,9 +529,14 @@ impl World {
     }
 
     pub fn validator_factory(cfg: &WorldCfg) -> Arc<dyn ValidatorFactory> {
-        match &cfg.policy {
-            Some(p) => Arc::new(SimpleValidatorFactory::new_with_policy(p.clone())),
-            None => Arc::new(SimpleValidatorFactory::new()),
+        let simple = match &cfg.policy {
+            Some(p) => SimpleValidatorFactory::new_with_policy(p.clone()),
+            None => SimpleValidatorFactory::new(),
+        };
+        if cfg.onchain {
+            Arc::new(lightning_signer::policy::onchain_validator::OnchainValidatorFactory::new_with_simple_factory(simple))
+        } else {
+            Arc::new(simple)
         }
     }
 
